@@ -22,6 +22,12 @@ CHECKS = {
    "TLA+ operator table + injectivity model check; TLC-enumerated family and random trees round-tripped through the real parser/printer", "§5 C17"),
 }
 
+ "C07": ("model_checking",
+   "SoyCheck.tla states the data-reference rules declaratively with lexical block scoping; generated valid bundles and single-rule mutants injected at every applicable site (13 mutation kinds) are compiled by the real code and TLC evaluates SoyCheck.Verdict on each bundle (C07Trace); accepted bundles are rendered with all declared params supplied under the lookup hook (no lookup of a name nothing declares), and the reference interpreter checks the same clause as the invariant ConsequentOK (C07Exec)",
+   "accept/reject only (never the message); shapes where the rules' wording is not decisive (a loop variable shadowing a param/let) are Unspec; runtime clause counts only names that no template declares",
+   "declarative TLA+ rules; TLC verdict validation of recorded compilations of generated bundles and site-enumerated mutants; lookup hook", "§5 C07"),
+}
+
 NOT_YET = {
  # property -> reason while a checker is not registered yet (kept current)
 }
